@@ -248,6 +248,10 @@ func canon(c Col, v driver.Value) (driver.Value, error) {
 	return nil, fmt.Errorf("cross-type value %T for column %s", v, c.Name)
 }
 
+// Canon and ValEqual are exported for oracles over the statement log.
+func Canon(c Col, v driver.Value) (driver.Value, error) { return canon(c, v) }
+func ValEqual(a, b driver.Value) bool                   { return valEqual(a, b) }
+
 func valEqual(a, b driver.Value) bool {
 	switch x := a.(type) {
 	case []byte:
